@@ -795,7 +795,9 @@ void mmd_assign_line_type(mmd_engine * e, token * line) {
 		case TOC_SINGLE:
 		case TOC_RANGE:
 		case TOC:
-			line->type = (e->extensions & EXT_COMPATIBILITY) ? LINE_PLAIN : LINE_TOC;
+			// Only a line that holds nothing else is a table of contents -- otherwise
+			// the rest of the line would be dropped
+			line->type = ((e->extensions & EXT_COMPATIBILITY) || !line_is_empty(first_child->next)) ? LINE_PLAIN : LINE_TOC;
 			break;
 
 		case BRACKET_LEFT:
